@@ -1,6 +1,7 @@
 package sym
 
 import (
+	"fmt"
 	"golang.org/x/tools/go/ssa"
 )
 
@@ -10,6 +11,7 @@ import (
 type TimeV struct {
 	NS   *Term // BV64
 	Zero bool
+	Sec  *Term // set when built by time.Unix(sec, n) with a constant n in [0,1e9): Unix() is then exactly sec
 }
 
 func (in *Interp) timeArg(v Value) TimeV {
@@ -21,14 +23,29 @@ func (in *Interp) timeArg(v Value) TimeV {
 }
 
 func registerTime(reg func(string, intrinsic)) {
-	reg("time.Now", func(in *Interp, fn *ssa.Function, a []Value) Value {
-		in.unsupported("time.Now (code under test must take the time as a parameter, or the harness must stub the clock seam)")
-		return nil
-	})
+	// clock stub: arbitrary non-decreasing instants in [0, 2^62) ns (year 1970..2116);
+	// natively the real clock is used, so clock values are not part of a replay vector
+	now := func(in *Interp) TimeV {
+		st := in.st
+		in.fresh++
+		v := st.Var(fmt.Sprintf("clock!%d_%d", in.drawSeq, in.fresh), BV(64))
+		in.addPC(st.ULt(v, st.Const(64, 1<<62)))
+		if in.clockLast != nil {
+			in.addPC(st.ULe(in.clockLast, v))
+		}
+		in.clockLast = v
+		in.ex.noteStub("time.Now = arbitrary non-decreasing instant (clock stub); not part of the replay vector")
+		return TimeV{NS: v}
+	}
+	reg("time.Now", func(in *Interp, fn *ssa.Function, a []Value) Value { return now(in) })
 	reg("time.Unix", func(in *Interp, fn *ssa.Function, a []Value) Value {
 		st := in.st
 		sec, nsec := a[0].(*Term), a[1].(*Term)
-		return TimeV{NS: st.Add(st.Mul(sec, st.Const(64, 1000000000)), nsec)}
+		t := TimeV{NS: st.Add(st.Mul(sec, st.Const(64, 1000000000)), nsec)}
+		if nsec.IsConst() && nsec.C < 1000000000 {
+			t.Sec = sec
+		}
+		return t
 	})
 	reg("time.UnixMilli", func(in *Interp, fn *ssa.Function, a []Value) Value {
 		st := in.st
@@ -84,6 +101,9 @@ func registerTime(reg func(string, intrinsic)) {
 		if t.Zero {
 			return st.Const(64, uint64(0xfffffff1886e0900)) // -62135596800
 		}
+		if t.Sec != nil {
+			return t.Sec
+		}
 		// floor division by 1e9 (Go: sec is floor for negative nanos too)
 		q := st.SDiv(t.NS, st.Const(64, 1000000000))
 		r := st.SRem(t.NS, st.Const(64, 1000000000))
@@ -97,7 +117,10 @@ func registerTime(reg func(string, intrinsic)) {
 	reg("(time.Time).String", func(in *Interp, fn *ssa.Function, a []Value) Value { return StrV{S: "<time>"} })
 	reg("(time.Time).Format", func(in *Interp, fn *ssa.Function, a []Value) Value { return StrV{S: "<time>"} })
 	reg("time.Since", func(in *Interp, fn *ssa.Function, a []Value) Value {
-		in.unsupported("time.Since (wall clock)")
-		return nil
+		t := in.timeArg(a[0])
+		if t.Zero {
+			in.unsupported("time.Since(zero Time)")
+		}
+		return in.st.Sub(now(in).NS, t.NS)
 	})
 }
